@@ -1,5 +1,5 @@
 """A3 edge facts + dominating-guard queries (R-guard)."""
-from facts import strip_refs, callee_name, is_debug_only_switch
+from facts import pointee, strip_refs, callee_name, is_debug_only_switch
 
 
 def eval_int(e):
@@ -77,38 +77,7 @@ def edge_fact(body, sb, lab):
             val = bool(lab)
         if val is None:
             return None
-        while e[0] == "un" and e[1] == "Not":
-            e = e[2]
-            val = not val
-        if e[0] == "call":
-            ct = body.term(e[1])
-            a0 = body.origin_operand(ct["args"][0]) if ct["args"] else None
-            return ("pred", callee_name(ct), a0, val, e[1])
-        if e[0] == "bin" and e[1] in ("Eq", "Ne", "Lt", "Le", "Gt", "Ge"):
-            op, a, b = e[1], strip_refs(e[2]), strip_refs(e[3])
-            ca, cb = eval_int(a), eval_int(b)
-            if ca is not None and cb is None:
-                op = {"Eq": "Eq", "Ne": "Ne", "Lt": "Gt", "Le": "Ge", "Gt": "Lt", "Ge": "Le"}[op]
-                a, b, ca, cb = b, a, cb, ca
-            if cb is None:
-                return ("cmp2", op if val else {"Eq": "Ne", "Ne": "Eq", "Lt": "Ge", "Le": "Gt", "Gt": "Le", "Ge": "Lt"}[op], a, b)
-            if not val:
-                op = {"Eq": "Ne", "Ne": "Eq", "Lt": "Ge", "Le": "Gt", "Gt": "Le", "Ge": "Lt"}[op]
-            lo, hi = None, None
-            if op == "Eq":
-                lo = hi = cb
-            elif op == "Lt":
-                hi = cb - 1
-            elif op == "Le":
-                hi = cb
-            elif op == "Gt":
-                lo = cb + 1
-            elif op == "Ge":
-                lo = cb
-            else:
-                return ("ne", a, cb)
-            return ("cmp", a, lo, hi)
-        return None
+        return bool_fact(body, e, val)
     if e[0] != "discr" and t["discr_ty"] not in ("bool",) and lab != "otherwise" and isinstance(lab, int):
         # integer switch (`match x { 0 => .., _ => .. }`, `matches!(x, 0)`): this arm means x == lab
         return ("cmp", e, lab, lab)
@@ -150,6 +119,65 @@ def edge_fact(body, sb, lab):
                 return ("cls", inner[1], "Some" if lab == 1 else "None", inner)
             if dty.startswith("core::result::Result"):
                 return ("cls", inner[1], "Ok" if lab == 0 else "Err", inner)
+    return None
+
+
+def bool_fact(body, e, val, depth=0):
+    """the fact expressed by `e == val` for a bool-valued provenance expression e"""
+    while e[0] == "un" and e[1] == "Not":
+        e = e[2]
+        val = not val
+    if e[0] == "call":
+        ct = body.term(e[1])
+        a0 = body.origin_operand(ct["args"][0]) if ct["args"] else None
+        # a private predicate that did not exist on the reference tree (`fn is_inline_buffer(&self)
+        # -> bool { self.last_byte() < HEAP_MARKER }`): the fact is the one its body expresses, with
+        # its operands carried back into this frame
+        k = ct.get("local_key")
+        F = body.facts
+        if k and k in F.bodies and k not in anchors(F) and depth < 3 and F.bodies[k].j["kind"] != "closure":
+            hb = F.bodies[k]
+            ds = hb.defs.get(0, [])
+            if len(ds) == 1:
+                r = ("call", ds[0][0]) if ds[0][1] == "term" else hb.origin_rvalue(ds[0][2])
+                r = strip_refs(r) if r[0] == "ref" else r
+                f = bool_fact(hb, r, val, depth + 1)
+                args = tuple(body.origin_operand(a) for a in ct["args"])
+                W = lambda x: ("inl", k, x, args, body.path) if x is not None else None
+                if f is not None:
+                    if f[0] == "cmp":
+                        return ("cmp", W(f[1]), f[2], f[3])
+                    if f[0] == "cmp2":
+                        return ("cmp2", f[1], W(f[2]), W(f[3]))
+                    if f[0] == "ne":
+                        return ("ne", W(f[1]), f[2])
+                    if f[0] == "pred":
+                        return ("pred", f[1], W(f[2]), f[3], e[1])
+        return ("pred", callee_name(ct), a0, val, e[1])
+    if e[0] == "bin" and e[1] in ("Eq", "Ne", "Lt", "Le", "Gt", "Ge"):
+        op, a, b = e[1], strip_refs(e[2]), strip_refs(e[3])
+        ca, cb = eval_int(a), eval_int(b)
+        if ca is not None and cb is None:
+            op = {"Eq": "Eq", "Ne": "Ne", "Lt": "Gt", "Le": "Ge", "Gt": "Lt", "Ge": "Le"}[op]
+            a, b, ca, cb = b, a, cb, ca
+        if cb is None:
+            return ("cmp2", op if val else {"Eq": "Ne", "Ne": "Eq", "Lt": "Ge", "Le": "Gt", "Gt": "Le", "Ge": "Lt"}[op], a, b)
+        if not val:
+            op = {"Eq": "Ne", "Ne": "Eq", "Lt": "Ge", "Le": "Gt", "Gt": "Le", "Ge": "Lt"}[op]
+        lo, hi = None, None
+        if op == "Eq":
+            lo = hi = cb
+        elif op == "Lt":
+            hi = cb - 1
+        elif op == "Le":
+            hi = cb
+        elif op == "Gt":
+            lo = cb + 1
+        elif op == "Ge":
+            lo = cb
+        else:
+            return ("ne", a, cb)
+        return ("cmp", a, lo, hi)
     return None
 
 
@@ -199,6 +227,10 @@ def _payload(body, inner, variant, depth, subst):
             a = describe(body, body.origin_operand(ct["args"][0]), depth + 1, subst)
             return ("ok(%s)" if variant == 0 else "err(%s)") % a
         dty = body.local_ty(ct["dest"]["l"]) if not ct["dest"]["p"] else ""
+        if variant == 1 and ct["args"] and (cn == "core::iter::traits::iterator::Iterator::next" or cn.endswith(" as core::iter::traits::iterator::Iterator>::next")):
+            # the element a `for` loop / `while let Some(x) = it.next()` is looking at: the same thing
+            # a closure handed to for_each / try_for_each / map receives as its argument
+            return "item(%s)" % describe(body, _iter_source(body, body.origin_operand(ct["args"][0])), depth + 1, subst)
         d = describe(body, inner, depth + 1, subst)
         if dty.startswith("core::result::Result<"):
             return ("ok(%s)" if variant == 0 else "err(%s)") % d
@@ -222,6 +254,110 @@ def _payload(body, inner, variant, depth, subst):
     return "v%d(%s)" % (variant, describe(body, inner, depth + 1, subst))
 
 
+def _iter_source(body, e):
+    """the iterator a `next()` call advances: look through `&mut iter` and the `into_iter()` of the
+    for-loop desugaring"""
+    e = strip_refs(e)
+    for _ in range(6):
+        if e[0] in ("ref", "rawptr"):
+            e = strip_refs(e[2])
+        elif e[0] == "deref":
+            e = strip_refs(e[1])
+        elif e[0] in ("mem", "local"):
+            ds = body.defs.get(e[1], [])
+            if len(ds) == 1:
+                e = strip_refs(("call", ds[0][0]) if ds[0][1] == "term" else body.origin_rvalue(ds[0][2]))
+            else:
+                break
+        elif e[0] == "call" and callee_name(body.term(e[1])).endswith("IntoIterator>::into_iter") or (e[0] == "call" and callee_name(body.term(e[1])) == "core::iter::traits::collect::IntoIterator::into_iter"):
+            e = strip_refs(body.origin_operand(body.term(e[1])["args"][0]))
+        else:
+            break
+    return e
+
+
+# what a closure handed to a std combinator receives as its (last) argument
+def combinator_item(name, arg0_desc):
+    leaf = name.rsplit("::", 1)[-1]
+    if name.startswith("core::iter::traits::iterator::Iterator::") or name.endswith(" as core::iter::traits::iterator::Iterator>::" + leaf):
+        if leaf in ("for_each", "try_for_each", "map", "filter", "filter_map", "flat_map", "inspect", "any", "all", "find", "find_map", "take_while", "skip_while", "map_while", "position"):
+            return 2, "item(%s)" % arg0_desc
+        if leaf in ("fold", "try_fold"):
+            return 3, "item(%s)" % arg0_desc
+    if name.startswith("core::result::Result::<T, E>::"):
+        if leaf in ("map", "and_then", "is_ok_and", "inspect"):
+            return 2, "ok(%s)" % arg0_desc
+        if leaf in ("map_err", "or_else", "unwrap_or_else", "inspect_err"):
+            return 2, "err(%s)" % arg0_desc
+    if name.startswith("core::option::Option::<T>::"):
+        if leaf in ("map", "and_then", "filter", "is_some_and", "inspect"):
+            return 2, "some(%s)" % arg0_desc
+    return None
+
+
+def _hdr_root(body, e, depth=0):
+    """the buffer handle a header pointer was computed from: look through pointer arithmetic, casts
+    and the `.ptr` field"""
+    e = strip_refs(e)
+    if depth > 12:
+        return e
+    if e[0] == "call":
+        t = body.term(e[1])
+        n = callee_name(t)
+        if (n.startswith("core::ptr::") or n.startswith("core::ptr::non_null::")) and t["args"]:
+            return _hdr_root(body, body.origin_operand(t["args"][0]), depth + 1)
+        return e
+    if e[0] == "cast":
+        return _hdr_root(body, e[2], depth + 1)
+    if e[0] == "field" and len(e) > 3 and e[3] and e[3].strip().startswith("core::ptr::non_null::NonNull<"):
+        return _hdr_root(body, e[1], depth + 1)
+    if e[0] == "deref":
+        return _hdr_root(body, e[1], depth + 1)
+    return e
+
+
+class Clo(str):
+    """description of a closure value that also remembers which closure body it is and how its
+    captures are described (in the describing frame's terms)"""
+    def __new__(cls, text, path, caps):
+        o = str.__new__(cls, text)
+        o.path, o.caps = path, caps
+        return o
+
+
+class Env(str):
+    """the environment parameter of an inlined closure body: field i is capture i"""
+    def __new__(cls, caps):
+        o = str.__new__(cls, "env{%s}" % ", ".join(caps))
+        o.caps = caps
+        return o
+
+
+CLOSURE_CALLS = ("core::ops::function::FnOnce::call_once", "core::ops::function::FnMut::call_mut", "core::ops::function::Fn::call")
+
+
+def closure_call_subst(body, t, depth=0, subst=None):
+    """`f(args)` where f describes to a known local closure -> (closure body, parameter map) or None"""
+    if not t["args"] or len(t["args"]) != 2:
+        return None
+    F = body.facts
+    nm = callee_name(t)
+    key = t.get("local_key")
+    is_direct = key and key in F.bodies and F.bodies[key].j["kind"] == "closure"
+    if nm not in CLOSURE_CALLS and not is_direct:
+        return None
+    a0 = describe(body, body.origin_operand(t["args"][0]), depth + 1, subst)
+    if not isinstance(a0, Clo) or a0.path not in F.bodies:
+        return None
+    tup = strip_refs(body.origin_operand(t["args"][1]))
+    if tup[0] != "agg":
+        return None
+    sub = {1: Env(a0.caps)}
+    for i, x in enumerate(tup[3]):
+        sub[i + 2] = describe(body, x, depth + 1, subst)
+    return F.bodies[a0.path], sub
+
+
 def describe(body, e, depth=0, subst=None):
     """short stable description of a provenance root, used in tables and reports.
     Canonical forms: ok(X)/err(X)/some(X) for payloads whichever way they are taken (`?`, match,
@@ -232,6 +368,11 @@ def describe(body, e, depth=0, subst=None):
     if depth > 18:
         return "..."
     D = lambda x: describe(body, x, depth + 1, subst)
+    if k == "inl":
+        # an expression of helper e[1]'s frame, its parameters being e[3] (expressions of frame e[4])
+        hb = body.facts.bodies[e[1]]
+        sub = {i + 1: D(a) for i, a in enumerate(e[3])}
+        return describe(hb, e[2], depth + 1, sub)
     if k == "param":
         if subst is not None and e[1] in subst:
             return subst[e[1]]
@@ -245,9 +386,27 @@ def describe(body, e, depth=0, subst=None):
         if "from_residual" in nm and args:
             a = D(args[0])
             return a if a.startswith("err(") else "err(%s)" % a
+        # a pointer / reference to the header of a heap buffer is named by the buffer it belongs to,
+        # whichever accessor or pointer arithmetic produced it
+        if not t["dest"]["p"]:
+            dty = body.local_ty(t["dest"]["l"]).strip()
+            if dty[:1] in ("&", "*") and pointee(dty) == "repr::heap_buffer::Header" and args:
+                root = _hdr_root(body, args[0])
+                d = D(root)
+                if root[0] == "param" and d.endswith(".0") and body.local_ty(root[1]).strip().startswith(("core::ptr::non_null::NonNull<", "*const ", "*mut ")):
+                    # a helper over raw parts was handed `handle.ptr`: same buffer as the handle
+                    d = d[:-2]
+                return "HDR(%s)" % d
         # helper inlining
         key = t.get("local_key")
         F = body.facts
+        if depth < 10 and len(args) == 2 and (nm in CLOSURE_CALLS or (key and key in F.bodies and F.bodies[key].j["kind"] == "closure")):
+            cs = closure_call_subst(body, t, depth, subst)
+            if cs is not None and cs[0].path != body.path:
+                hb, sub = cs
+                outs = sorted({describe(hb, ("call", bb) if si == "term" else hb.origin_rvalue(x), depth + 2, sub) for (bb, si, x) in hb.defs.get(0, [])})
+                if outs:
+                    return outs[0] if len(outs) == 1 else "phi(%s)" % ", ".join(outs)
         if key and key in F.bodies and key not in anchors(F) and depth < 10 and key != body.path:
             hb = F.bodies[key]
             defs = hb.defs.get(0, [])
@@ -256,17 +415,23 @@ def describe(body, e, depth=0, subst=None):
                 outs = sorted({describe(hb, ("call", bb) if si == "term" else hb.origin_rvalue(x), depth + 2, sub) for (bb, si, x) in defs})
                 return outs[0] if len(outs) == 1 else "phi(%s)" % ", ".join(outs)
         nm = NAME_NORM.get(nm, nm)
+        if args and (nm.startswith("core::iter::traits::iterator::Iterator::") or " as core::iter::traits::iterator::Iterator>::" in nm):
+            # the iterator an adaptor / consumer is applied to, not the temporary that holds it
+            args = [_iter_source(body, args[0])] + args[1:]
         if nm in ("core::mem::size_of", "core::mem::align_of"):
             nm += "::<%s>" % ", ".join(t.get("generic_args", []))
         return "%s(%s)" % (nm, ", ".join(D(a) for a in args))
     if k == "field" and e[1][0] == "downcast":
         return _payload(body, e[1][1], e[1][2], depth, subst)
     if k == "field":
-        return "%s.%d" % (D(e[1]), e[2])
+        base = D(e[1])
+        if isinstance(base, Env) and e[2] < len(base.caps):
+            return base.caps[e[2]]
+        return "%s.%d" % (base, e[2])
     if k == "deref":
-        return "*%s" % D(e[1])
+        return D(e[1])  # a dereference names the same value
     if k in ("ref", "rawptr"):
-        return "&%s" % D(e[2])
+        return D(e[2])  # taking a reference names the same value
     if k == "cast":
         return "(%s as %s)" % (D(e[2]), e[3])
     if k == "bin":
@@ -278,8 +443,16 @@ def describe(body, e, depth=0, subst=None):
     if k in ("local", "mem", "loop"):
         return "%s:%s" % (k, body.local_name(e[1]) or e[1])
     if k == "fn":
-        return "fn:%s%s" % (e[3] or e[1], ("::<%s>" % ", ".join(e[2])) if e[2] and not e[3] else "")
+        txt = "fn:%s%s" % (e[3] or e[1], ("::<%s>" % ", ".join(e[2])) if e[2] and not e[3] else "")
+        cb = body.facts.bodies.get(e[3] or e[1])
+        if cb is not None and cb.j["kind"] == "closure":
+            return Clo(txt, cb.path, [])
+        return txt
     if k == "agg":
+        cb = body.facts.bodies.get(e[1])
+        if cb is not None and cb.j["kind"] == "closure":
+            caps = [D(x) for x in e[3]]
+            return Clo("%s::%s{%s}" % (e[1], e[2], ", ".join(caps)), e[1], caps)
         if e[1] == "core::result::Result" and e[2] == "Err" and len(e[3]) == 1:
             a = D(e[3][0])
             if a.startswith("err("):
@@ -443,37 +616,6 @@ def inlined_sites(root, want, depth=3):
     F = root.facts
     out = []
 
-    def walk(body, chain, subst, d, seen):
-        for bb, t in body.calls():
-            n = callee_name(t)
-            here = chain + [(body, bb)]
-            sub_here = subst + [subst[-1] if subst else None]
-            # subst for this frame is the last element of subst (the frame's own parameter map)
-            if want(n):
-                out.append(Site(root, here, t, subst + [cur_sub(subst)]))
-            k = t.get("local_key")
-            targets = []
-            if k and k in F.bodies and k not in anchors(F) and F.bodies[k].j["kind"] != "closure":
-                targets.append((k, True))
-            for c in t.get("cb_closures", []):
-                if c in F.bodies:
-                    targets.append((c, False))
-            for a in t["args"]:
-                if "c" in a and "closure" in a["c"] and a["c"]["closure"] in F.bodies:
-                    targets.append((a["c"]["closure"], False))
-            for (k2, is_fn) in targets:
-                if d <= 0 or k2 in seen:
-                    continue
-                hb = F.bodies[k2]
-                if is_fn:
-                    sub = {i + 1: describe(body, body.origin_operand(a), 0, cur_sub(subst)) for i, a in enumerate(t["args"])}
-                else:
-                    sub = None
-                walk(hb, here, subst + [cur_sub(subst), sub][1:] if False else subst + [sub], d - 1, seen | {k2})
-
-    def cur_sub(subst):
-        return subst[-1] if subst else None
-
     # frame stack: subst[i] is the parameter map of chain[i]'s body
     def walk2(body, chain, subs, d, seen):
         for bb, t in body.calls():
@@ -488,11 +630,30 @@ def inlined_sites(root, want, depth=3):
             for c in t.get("cb_closures", []):
                 if c in F.bodies:
                     targets.append((c, False))
+            cs = closure_call_subst(body, t, 0, subs[-1])
+            if cs is not None and d > 0 and cs[0].path not in seen:
+                # `f(x)` where f is a closure the root (or a helper on the way) built: its body runs
+                # here, with its captures and arguments described in the root's terms
+                walk2(cs[0], here, subs + [cs[1]], d - 1, seen | {cs[0].path})
             for (k2, is_fn) in targets:
                 if d <= 0 or k2 in seen:
                     continue
                 hb = F.bodies[k2]
                 sub = {i + 1: describe(body, body.origin_operand(a), 0, subs[-1]) for i, a in enumerate(t["args"])} if is_fn else None
+                if not is_fn:
+                    # a closure handed to a std combinator: captures and the element it is applied to,
+                    # in the root's terms
+                    sub = {}
+                    ads = [describe(body, body.origin_operand(a), 0, subs[-1]) for a in t["args"]]
+                    if ads and (n.startswith("core::iter::traits::iterator::Iterator::") or " as core::iter::traits::iterator::Iterator>::" in n):
+                        ads[0] = describe(body, _iter_source(body, body.origin_operand(t["args"][0])), 0, subs[-1])
+                    for a in ads:
+                        if isinstance(a, Clo) and a.path == k2:
+                            sub[1] = Env(a.caps)
+                    ci = combinator_item(n, ads[0]) if ads else None
+                    if ci:
+                        sub[ci[0]] = ci[1]
+                    sub = sub or None
                 walk2(hb, here, subs + [sub], d - 1, seen | {k2})
         # closures constructed here and called later through std combinators are found via cb_closures
 
